@@ -5,6 +5,7 @@ package c13
 
 import (
 	"fmt"
+	"math"
 	"reflect"
 	"strconv"
 	"strings"
@@ -61,6 +62,10 @@ func dotIndex(path string) bool {
 	}
 	return false
 }
+
+// boundaryPaths: values at the edges of the integer and float ranges (never operands of
+// arithmetic; passed to functions and printed)
+var boundaryPaths = []string{"umax", "u63", "imax", "imin", "u32", "fbig", "negz"}
 
 var (
 	blankPaths  = []string{"sp", "sp2", "spl", "spt"}
@@ -144,6 +149,9 @@ func envOf0(id int) map[string]any {
 		"hx": "0x10", "und": "1_000", "b11": "0b11", "o7": "0o7", "lsp": " 42", "isp": "4 2",
 		"t": r.t, "u": r.u, "off": false,
 		"big": int64(1234567),
+		// magnitude boundaries
+		"umax": uint64(math.MaxUint64), "u63": uint64(1) << 63, "imax": int64(math.MaxInt64), "imin": int64(math.MinInt64), "u32": uint32(math.MaxUint32),
+		"fbig": 1e21, "negz": math.Copysign(0, -1),
 		// index / key variables for computed steps: xs[ix], m[kk]
 		"ix": []int{1, 0, 1}[id%nEnvs], "kk": "name", "kx": "k", "kb": "ok",
 		"m": map[string]any{"k": r.k, "name": r.name, "ok": r.ok, "rate": r.rate,
@@ -508,6 +516,10 @@ func truthy(v any) bool {
 	case int64:
 		return x != 0
 	case uint:
+		return x != 0
+	case uint64:
+		return x != 0
+	case uint32:
 		return x != 0
 	case float64:
 		return x != 0
